@@ -960,6 +960,13 @@ class HTTPResponse(BaseHTTPResponse):
         flush_decoder = amt is None or (amt != 0 and not data)
 
         if not data and len(self._decoded_buffer) == 0:
+            if data is not None and amt is not None and flush_decoder and decode_content:
+                # End of the body reached by a read(amt): the decoder still has to
+                # confirm that the compressed stream is complete (e.g. zstd).
+                self._decoded_buffer.put(
+                    self._decode(data, decode_content, flush_decoder)
+                )
+                return self._decoded_buffer.get(amt)
             return data
 
         if amt is None:
@@ -988,7 +995,9 @@ class HTTPResponse(BaseHTTPResponse):
                 # For example, the GZ file header takes 10 bytes, we don't want to read
                 # it one byte at a time
                 data = self._raw_read(amt)
-                decoded_data = self._decode(data, decode_content, flush_decoder)
+                decoded_data = self._decode(
+                    data, decode_content, flush_decoder or not data
+                )
                 self._decoded_buffer.put(decoded_data)
             data = self._decoded_buffer.get(amt)
 
